@@ -280,6 +280,16 @@ Definition f_split (st : fstate) (body newl : N) (masks : list (N * list bool)) 
          end
   end.
 
+(* ---- what a client computing indices offline has to post (ingest-supervoxels + POST indices +
+   POST mappings): per body, per block, the voxel count of each supervoxel mapped to the body ---- *)
+Definition scan_index (vx : list (N * list N)) (fm : list (N * N)) (l : N) : index :=
+  flat_map (fun ba => map (fun s => ((fst ba, s), countN (snd ba) s))
+                          (filter (fun s => negb (s =? 0) && (mapped fm s =? l)) (nodupN (snd ba)))) vx.
+Definition scan_bodies (vx : list (N * list N)) (fm : list (N * N)) : list N :=
+  nodupN (flat_map (fun ba => map (mapped fm) (filter (fun s => negb (s =? 0)) (nodupN (snd ba)))) vx).
+Definition offline_state (vx : list (N * list N)) (fm : list (N * N)) : fstate :=
+  {| f_vox := vx; f_map := fm; f_idx := map (fun l => (l, scan_index vx fm l)) (scan_bodies vx fm) |}.
+
 (* ---- one step of the flat machine ---- *)
 Definition fstep (fx : fixes) (aggl : N -> N) (st : fstate) (o : op) : res fstate :=
   match o with
@@ -296,6 +306,21 @@ Definition fstep (fx : fixes) (aggl : N -> N) (st : fstate) (o : op) : res fstat
   | ORenumber a b => f_renumber fx st a b
   | OSplit b n masks sm => f_split st b n masks sm
   end.
+
+(* a run of the flat machine *)
+Fixpoint fsteps (fx : fixes) (st : fstate) (ops : list op) : res fstate :=
+  match ops with
+  | [] => Ok st
+  | o :: r => res_bind (fstep fx (mapped (f_map st)) st o) (fun st' => fsteps fx st' r)
+  end.
+
+(* the bulk load of an instance: blocks without indexing, the agglomeration, then per body the
+   scanned index *)
+Definition offline_ops (blocks : list (N * list N)) (pairs : list (N * N)) : list op :=
+  let vx := put_blocks [] blocks in
+  let fm := fold_left (fun m p => aset N.eqb (fst p) (snd p) m) pairs [] in
+  OStore blocks :: OPutMappings pairs ::
+  map (fun l => OPutIndex l (Some (scan_index vx fm l))) (scan_bodies vx fm).
 
 (* ================= versioned machine ================= *)
 (* entries written at versions; at most one per version (vmap.modify replaces, a key-value
